@@ -49,6 +49,14 @@ Theorem C04_enumerated : forall out m r x s, Inv m -> is_labelled (kd m) = true 
 Proof. exact enumerated_value. Qed.
 Print Assumptions C04_enumerated.
 
+(* a user-chosen numbering (set_mapping / set_reverse_mapping with the model's labels and pairwise different integers below their
+   number) keeps the bookkeeping invariant: the statements above, and everything else that assumes Inv, hold for renumbered models *)
+Theorem C04_renumbered : forall m mpx, Inv m -> is_labelled (kd m) = true ->
+  (forall i, In i (map fst mpx) <-> In i (map fst (mp m))) -> NoDup (map fst mpx) -> snd_ok mpx ->
+  Inv (set_mapping m mpx).
+Proof. exact set_mapping_Inv. Qed.
+Print Assumptions C04_renumbered.
+
 (* convert_solution undoes the relabelling entry by entry *)
 Theorem C04_convert_solution : forall to_spin m sol flag out,
   is_solution_spin (map snd sol) flag = to_spin ->
